@@ -394,3 +394,86 @@ def read_validated(ctx, P, rule="READ-VALIDATED", floor=8):
                     ctx.ob(rule, key, False, tu.loc(c), "`%s` reported by %s is never consulted on the path through lines %s" % (v, callee(c), " -> ".join(wit)))
     ctx.floor(rule, floor)
     return n
+
+
+def no_wrap(ctx, P, rule="KAS-NO-WRAP", floor=2):
+    """Bounds tests over quantities read from the file must not be able to wrap around."""
+    ctx.rule(rule, "in kastore's readers a 64-bit quantity copied out of the file (memcpy(&v, <buffer> …)) is compared with a limit "
+                   "ALONE on its side of the comparison (`v > limit - other`, `v > (limit - start) / size`): a test of the form "
+                   "`start + len * size > limit` wraps for len >= 2^64 / size and then accepts a length that the later reads use")
+    tu = P.tus["kastore"]
+    n = 0
+    for fn in tu.funcs.values():
+        if fn.body is None:
+            continue
+        tainted = set()
+        for c in calls(fn.body):
+            if callee(c) == "memcpy" and len(c.kids) >= 3:
+                d = strip(c.kids[1])
+                if d is not None and d.k == "UnaryOperator" and d.op == "&":
+                    v = strip(d.kids[0])
+                    if v is not None and v.k == "DeclRefExpr":
+                        tainted.add(v.ref)
+        if not tainted:
+            continue
+        k = 0
+        for x in walk(fn.body):
+            if x.k == "BinaryOperator" and x.op in (">", ">=", "<", "<="):
+                for side in x.kids[:2]:
+                    s0 = strip(side)
+                    if s0 is None or s0.k != "BinaryOperator" or s0.op not in ("+", "*"):
+                        continue
+                    names = {y.ref for y in walk(s0) if y.k == "DeclRefExpr"}
+                    if names & tainted:
+                        n += 1
+                        ctx.ob(rule, "%s@%d" % (fn.name, k), False, tu.loc(x),
+                               "`%s` adds / multiplies the file-supplied %s before comparing: it can wrap around and pass"
+                               % (" ".join(tu.src(x).split())[:70], sorted(names & tainted)))
+                        k += 1
+                        break
+                else:
+                    names = {y.ref for y in walk(x) if y.k == "DeclRefExpr"}
+                    if names & tainted:
+                        n += 1
+                        ctx.ob(rule, "%s@%d" % (fn.name, k), True, tu.loc(x), "`%s` cannot wrap" % " ".join(tu.src(x).split())[:70])
+                        k += 1
+    ctx.ob(rule, "instances", n >= floor, "c/subprojects/kastore/kastore.c", "%d comparisons over file-supplied quantities analysed" % n)
+    return n
+
+
+def keys_accounted(ctx, P, rule="KEYS-ACCOUNTED"):
+    """C10 asks that an altered key region makes load raise.  A key whose bytes change is a key the loader does not know; the
+    loader raises for it only if it accounts for every item of the store."""
+    ctx.rule(rule, "the table-collection loader accounts for every item in the store: besides looking up the keys it knows "
+                   "(kastore_gets* / kastore_containss), it compares what it consumed with the store's item count, or walks the "
+                   "items and rejects a key it does not recognise.  Without that, a byte changed in the key of an OPTIONAL item "
+                   "(time_units, metadata, metadata_schema, <table>/metadata_schema, reference_sequence/* …) turns the item into an "
+                   "unknown one that is ignored, and the file loads with the default in its place instead of raising")
+    tu = P.tus["tables"]
+    entry = P.need("tsk_table_collection_loadf_inited", "tables")
+    # functions reachable from the loader inside tables.c
+    seen, todo = set(), [entry]
+    while todo:
+        f = todo.pop()
+        if f.name in seen or f.body is None:
+            continue
+        seen.add(f.name)
+        for c in calls(f.body):
+            g = tu.funcs.get(callee(c) or "")
+            if g is not None:
+                todo.append(g)
+    optional = 0
+    accounted = False
+    for name in sorted(seen):
+        f = tu.funcs[name]
+        src = tu.src(f.body)
+        optional += len(re.findall(r"kastore_containss\(", src))
+        if re.search(r"->\s*num_items\b|kastore_get_num_items|kastore_iter", src):
+            accounted = True
+    ctx.ob(rule, "tsk_table_collection_loadf_inited|optional-lookups", optional >= 5, tu.loc(entry.node),
+           "%d presence tests (kastore_containss) in the %d functions of the load path: optional items exist" % (optional, len(seen)))
+    ctx.ob(rule, "tsk_table_collection_loadf_inited|unconsumed-items", accounted, tu.loc(entry.node),
+           "the load path compares the items it consumed with the store's item count" if accounted else
+           "nothing on the load path (%d functions) looks at the store's item count or walks its keys: an item whose key was altered "
+           "is silently ignored and the optional value it carried is replaced by its default" % len(seen))
+    return 2
